@@ -331,6 +331,9 @@ func init() {
 			if !c.thorough() && tailFeats[sh.feat].next != nil && len(sh.wraps) > 1 {
 				continue // quick tier: the self-call-in-argument features under one wrap only (the value half has them all)
 			}
+			if c.thorough() && len(sh.wraps) > 2 && sh.feat != 0 && !tailFeats[sh.feat].closure && !hashSel(c.seed, si, 1, 6) {
+				continue // thorough tier: three wraps deep for the plain and the closure feature, a seeded sixth of the others
+			}
 			ns := []int{10, 100, 1000}
 			if c.thorough() {
 				ns = []int{10, 100, 1000, 10000}
@@ -348,7 +351,7 @@ func init() {
 			}
 			idx++
 			// the same function defined after the name f was used for something else
-			if tailFeats[sh.feat].next == nil && (c.thorough() || (len(sh.wraps) == 1 && sh.feat == 0)) {
+			if tailFeats[sh.feat].next == nil && ((c.thorough() && len(sh.wraps) <= 2) || (len(sh.wraps) == 1 && sh.feat == 0)) {
 				for pk := 1; pk < nPreludes; pk++ {
 					if c.mine(idx) {
 						w.write(runSpace(fmt.Sprintf("space-%d-p%d", si, pk), sh, []int{10, 100, 1000}, pk))
